@@ -8,7 +8,7 @@ fn main() {
         ("/repo/nat-detection/src/main.rs", &["parse_peer_addr"], "natdetection_parse_peer_addr.rs"),
         (
             "/repo/ant-metrics/src/main.rs",
-            &["const LOG_FILENAME_PREFIX", "type NodeId", "get_metric_servers"],
+            &["const LOG_FILENAME_PREFIX", "type NodeId", "get_metric_servers", "build_prometheus_config", "last_n_chars"],
             "antmetrics_get_metric_servers.rs",
         ),
     ]);
